@@ -57,7 +57,7 @@ def main():
     results = {}
     for pr in props:
         t0 = time.time()
-        rc, out = sh(["./check", pr, "quick"], cwd=ROOT, env={"MW_HARNESS": EH, "MW_WORK": EW, "MW_EVID": EW + "/evidence"}, timeout=3000)
+        rc, out = sh(["./check", pr, "quick"], cwd=ROOT, env={"MW_HARNESS": EH, "MW_WORK": EW, "MW_EVID": EW + "/evidence", "MW_REPO": WT}, timeout=3000)
         viol = [l for l in out.splitlines() if l.startswith("VIOLATION")]
         finds = [l for l in out.splitlines() if l.startswith("finding:") or l.startswith("replay finding")][:3]
         results[pr] = {"exit": rc, "violation_lines": viol[:2], "first_findings": finds, "wall_s": round(time.time() - t0, 1)}
